@@ -59,6 +59,36 @@ func c03cStack(needle string) string {
 	return strings.Join(out, "\n--\n")
 }
 
+
+// c03cProbeData builds the bytes one prober sends.
+func c03cProbeData(t vh.Fataler, e *aEnv, p c03cProbe) []byte {
+	var data []byte
+	switch p.Kind {
+	case "flip-genuine":
+		// a standing registration's flight with one tag bit flipped
+		w, err := e.aFlight(aSecret(20+p.Key%9), aTT[(p.Key%9)%2], 0, 0)
+		if err != nil {
+			t.Fatalf("harness problem: flight: %v", err)
+		}
+		data = aJoin(w)
+		pos := p.Bit % (32 * 8)
+		data[len(data)-32+pos/8] ^= 1 << uint(pos%8)
+		data = append(data, aPayload(p.Key, p.Len, "c03c-extra")...)
+	case "other-client-flight":
+		// the tag of a client that is NOT registered on this phantom, followed by garbage
+		w, err := e.aFlight(aSecret(90+p.Key%5), aTT[p.Key%2], 0, 0)
+		if err != nil {
+			t.Fatalf("harness problem: flight: %v", err)
+		}
+		data = append(aJoin(w), aPayload(p.Key, p.Len, "c03c-extra")...)
+	case "long":
+		data = aPayload(p.Key, 8192+p.Len, "c03c-long")
+	default:
+		data = aPayload(p.Key, 32+p.Len, "c03c-rnd")
+	}
+	return data
+}
+
 // c03cBlocked is set once the registry lock was found dead: nothing else can run in this process.
 var c03cBlocked string
 
@@ -162,30 +192,7 @@ func c03cRun(t vh.Fataler, rec *vh.Rec, e *aEnv, c c03cCase) {
 	}
 	probes := make([]*probeRun, len(c.Probes))
 	for i, p := range c.Probes {
-		var data []byte
-		switch p.Kind {
-		case "flip-genuine":
-			// a standing registration's flight with one tag bit flipped
-			w, err := e.aFlight(aSecret(20+p.Key%9), aTT[(p.Key%9)%2], 0, 0)
-			if err != nil {
-				t.Fatalf("harness problem: flight: %v", err)
-			}
-			data = aJoin(w)
-			pos := p.Bit % (32 * 8)
-			data[len(data)-32+pos/8] ^= 1 << uint(pos%8)
-			data = append(data, aPayload(p.Key, p.Len, "c03c-extra")...)
-		case "other-client-flight":
-			// the tag of a client that is NOT registered on this phantom, followed by garbage
-			w, err := e.aFlight(aSecret(90+p.Key%5), aTT[p.Key%2], 0, 0)
-			if err != nil {
-				t.Fatalf("harness problem: flight: %v", err)
-			}
-			data = append(aJoin(w), aPayload(p.Key, p.Len, "c03c-extra")...)
-		case "long":
-			data = aPayload(p.Key, 8192+p.Len, "c03c-long")
-		default:
-			data = aPayload(p.Key, 32+p.Len, "c03c-rnd")
-		}
+		data := c03cProbeData(t, e, p)
 		var steps []vconn.Step
 		segs := p.Segs
 		if segs < 1 {
@@ -339,5 +346,142 @@ func TestVerif_C03_concurrent(t *testing.T) {
 			c.Clients = append(c.Clients, rapid.SampledFrom([]int{0, 0, 1, 1}).Draw(rt, "ctt"))
 		}
 		c03cRun(rt, rec, e, c)
+	})
+}
+
+// Flood: many unauthenticated connections are inside the classification stage AT THE SAME TIME, all
+// of them from one client address or spread over a few. Each one is owed the same treatment as a
+// lone probe; how many others are being classified, or where they come from, must not show.
+type c03fCase struct {
+	V6      bool        `json:"v6"`
+	N       int         `json:"n"`       // simultaneous probers
+	Sources int         `json:"sources"` // distinct client addresses they come from
+	Regs    bool        `json:"regs"`    // registrations exist on the probed phantom
+	Probes  []c03cProbe `json:"probes"`  // prober i sends Probes[i % len]
+}
+
+func c03fRun(t vh.Fataler, rec *vh.Rec, e *aEnv, c c03fCase) {
+	cj.VerifResetRegistry(e.rm)
+	if c.Regs {
+		for i := 0; i < 9; i++ {
+			reg, err := e.aMakeReg(aRegSpec{Secret: 20 + i, TT: i % 3, Phantom: 0, V6: c.V6, Covert: "192.0.2.10:443"})
+			if err != nil {
+				t.Fatalf("harness problem: %v", err)
+			}
+			cj.VerifIngest(e.rm, reg)
+		}
+	}
+	phantom := aPhantom(0, c.V6)
+	type probeRun struct {
+		p    c03cProbe
+		conn *vconn.Conn
+		ok   bool
+		pan  any
+		dur  time.Duration
+		n    int
+	}
+	var mu sync.Mutex
+	inside, finished := 0, 0
+	release := make(chan struct{})
+	var once sync.Once
+	check := func() {
+		// called with mu held: everybody is either waiting inside its first read or has returned
+		if inside+finished >= c.N {
+			once.Do(func() { close(release) })
+		}
+	}
+	probes := make([]*probeRun, c.N)
+	for i := range probes {
+		p := c.Probes[i%len(c.Probes)]
+		p.Key += i
+		data := c03cProbeData(t, e, p)
+		cut := 1 + (len(data)-1)/2
+		src := i % c.Sources
+		remote := fmt.Sprintf("203.0.113.%d:%d", 10+src, 20000+i)
+		if c.V6 {
+			remote = fmt.Sprintf("[2001:db8::%x]:%d", 0x10+src, 20000+i)
+		}
+		conn := vconn.New(vconn.Script{Reads: []vconn.Step{{Data: vh.Hex(data[:cut]), Hook: "gate"}, {Data: vh.Hex(data[cut:])}}, End: "hold", Remote: remote})
+		conn.OnHook = func(string) {
+			mu.Lock()
+			inside++
+			check()
+			mu.Unlock()
+			select {
+			case <-release:
+			case <-time.After(30 * time.Second):
+			}
+		}
+		probes[i] = &probeRun{p: p, n: len(data), conn: conn}
+	}
+	var wg sync.WaitGroup
+	for _, pr := range probes {
+		wg.Add(1)
+		go func(pr *probeRun) {
+			defer wg.Done()
+			pr.ok, pr.pan, pr.dur = e.aRunHandler(pr.conn, phantom, 120*time.Second)
+			mu.Lock()
+			finished++
+			check()
+			mu.Unlock()
+		}(pr)
+	}
+	wg.Wait()
+	mu.Lock()
+	peak := inside
+	mu.Unlock()
+	classes := []string{fmt.Sprintf("sources:%d", c.Sources)}
+	switch {
+	case peak >= 256:
+		classes = append(classes, "simultaneous>=256")
+	case peak >= 65:
+		classes = append(classes, "simultaneous>=65")
+	}
+	rec.Case(peak >= 65, vh.Digest(c), c, classes...)
+	for i, pr := range probes {
+		if !pr.ok {
+			rec.Violation(t, "handler-stuck", c, "prober %d of %d simultaneous ones: its handler did not return within 120 s:\n%s", i, c.N, c03cStack("handleNewTCPConn"))
+			return
+		}
+		key, msg, _ := c03Oracle(pr.conn, pr.ok, pr.pan, pr.dur)
+		if key != "" {
+			rec.Violation(t, "flood:"+key, c, "prober %d (%s, %d bytes) of %d simultaneous probers from %d client address(es) (%d of them reached their first read): %s", i, pr.p.Kind, pr.n, c.N, c.Sources, peak, msg)
+			return
+		}
+	}
+}
+
+func TestVerif_C03_flood(t *testing.T) {
+	rec := vh.NewRec("C03", "flood", "N = 65..600 probers (random / one-bit-flipped flight / foreign flight / >8 KiB) from 1-7 client addresses are held inside the classification stage at the same time (each blocks in its first read until all have arrived), with and without registrations on the phantom; oracle: every one of them passes the single-connection oracle (no byte written, deadline set first and in range, not closed before 5 s, read until the deadline); built with the race detector; non-trivial = at least 65 handlers were inside the stage simultaneously; distinct by case")
+	defer rec.Flush()
+	rec.Require("simultaneous>=65", "sources:1")
+	defer aSilenceStdout()()
+	e := aNewEnv(t)
+	if p := vh.ReplayFile(); p != "" {
+		var c c03fCase
+		if _, _, err := vh.LoadReplay(p, &c); err != nil {
+			t.Fatal(err)
+		}
+		c03fRun(t, rec, e, c)
+		return
+	}
+	rapid.Check(t, func(rt *rapid.T) {
+		c := c03fCase{V6: rapid.IntRange(0, 3).Draw(rt, "v6") == 0, Regs: rapid.IntRange(0, 3).Draw(rt, "regs") > 0}
+		c.N = rapid.SampledFrom([]int{65, 66, 100, 129, 200, 257, 400, 600}).Draw(rt, "n")
+		c.Sources = rapid.SampledFrom([]int{1, 1, 1, 2, 7}).Draw(rt, "sources")
+		np := rapid.IntRange(1, 4).Draw(rt, "nkinds")
+		for i := 0; i < np; i++ {
+			kinds := []string{"random", "random", "other-client-flight", "long"}
+			if c.Regs {
+				kinds = append(kinds, "flip-genuine")
+			}
+			c.Probes = append(c.Probes, c03cProbe{
+				Kind: rapid.SampledFrom(kinds).Draw(rt, "kind"),
+				Len:  rapid.SampledFrom([]int{0, 1, 31, 32, 33, 100, 900}).Draw(rt, "len"),
+				Key:  rapid.IntRange(0, 1<<16).Draw(rt, "key"),
+				Bit:  rapid.IntRange(0, 255).Draw(rt, "bit"),
+			})
+		}
+		c03fRun(rt, rec, e, c)
 	})
 }
